@@ -447,6 +447,52 @@ fn wide_alphabet(acc: &mut Acc, prop: &str, report: Vec<&'static str>, depth: us
     acc.add("wide byte alphabet", &cfg, ex);
 }
 
+/// See the call site: a transmission in progress longer than 2^32 bytes, cut short by a start sequence.
+pub fn giant_in_frame() -> Option<(String, String)> {
+    // VERIF_GIANT_L: a smaller length, for trying the procedure out
+    let l: u64 = std::env::var("VERIF_GIANT_L").ok().and_then(|s| s.parse().ok()).unwrap_or((1u64 << 32) + 5);
+    let mut d = new_dec(BufKind::Vec);
+    let mut bad: Option<(String, String)> = None;
+    let mut feed = |d: &mut Box<dyn Dec>, b: u8, want: Option<&Out>, at: &str| -> bool {
+        let o = d.push(b);
+        let ok = match want {
+            None => o == Out::None,
+            Some(w) => &o == w,
+        };
+        if !ok && bad.is_none() {
+            let class = if matches!(o, Out::Panic(_)) { "C05 M-total: panic" } else { "C17 discarded-bytes count wrong for a transmission longer than 2^32 bytes" };
+            bad = Some((class.to_string(), format!("{}: got {}, expected {}", at, o.short(), want.map_or("Ok(None)".to_string(), |w| w.short()))));
+        }
+        ok
+    };
+    let mut ok = true;
+    for b in START {
+        ok = ok && feed(&mut d, b, None, "start sequence");
+    }
+    let mut i = 0u64;
+    while ok && i < l {
+        ok = feed(&mut d, if i % 4 == 3 { 0x00 } else { 0x55 }, None, "inside the long transmission");
+        i += 1;
+    }
+    for (k, b) in START.iter().enumerate() {
+        if !ok {
+            break;
+        }
+        let want = Out::Err(DecodeErr::DiscardedBytes((l + 8) as usize));
+        ok = feed(&mut d, *b, if k == 7 { Some(&want) } else { None }, "second start sequence after 2^32+5 bytes of an unfinished transmission");
+    }
+    let f = canon(&[0x42]);
+    for (k, b) in f[8..].iter().enumerate() {
+        if !ok {
+            break;
+        }
+        let want = Out::Msg(vec![0x42]);
+        ok = feed(&mut d, *b, if k == f.len() - 9 { Some(&want) } else { None }, "the frame after the abandoned transmission");
+    }
+    drop(d);
+    bad
+}
+
 // ------------------------------------------------------------------ C05 / C17
 fn run_sub() -> Vec<Sym> {
     vec![Sym::B(0x00), Sym::B(0x01), Sym::B(0x1a), Sym::B(0x1b), Sym::B(0x55), Sym::Esc, Sym::Som, Sym::Tail(0), Sym::Fin, Sym::Reset]
@@ -529,6 +575,7 @@ pub fn run_c05_c17(prop: &'static str, tier: Tier) -> ! {
             vec![Sym::Run(0x00, 1u64 << 32), Sym::Fin],
             vec![Sym::Esc, Sym::Som, Sym::Run(0x00, (1u64 << 32) + 2), Sym::Reset],
         ];
+        let in_frame_thread = std::thread::spawn(giant_in_frame);
         let res = par_chunks(giant.len() as u64, 1, |a, _b| {
             // same rule as exploration and replay: stop at the first finding that leaves monitor and
             // decoder out of step (e.g. a panic)
@@ -560,6 +607,20 @@ pub fn run_c05_c17(prop: &'static str, tier: Tier) -> ! {
                         case: J::obj().set("engine", "e1").set("mode", "path").set("buf", "ArrayBuf<1>").set("path", path_str(p)),
                         size: p.len(),
                     });
+                }
+            }
+        }
+        // ... and a transmission in progress that is itself longer than 2^32 bytes (growable buffer;
+        // the fixed-buffer paths above leave the frame after a few bytes), cut short by a new start
+        // sequence: the count reported is the length of the abandoned transmission. Directed
+        // expectation, no monitor (it would have to hold the 4 GiB frame as well).
+        {
+            let bad = in_frame_thread.join().unwrap_or_else(|_| crate::report::machinery("giant in-frame path: thread panicked"));
+            acc.transitions += 1;
+            acc.counts.inc("directed paths with a run of more than 2^32 bytes");
+            if let Some((class, what)) = bad {
+                if report.iter().any(|r| class.starts_with(r)) {
+                    acc.tally.add(Viol { class, key: "Vec:in-frame 2^32+5".into(), what, case: J::obj().set("engine", "e1").set("mode", "giant_in_frame"), size: 5 });
                 }
             }
         }
